@@ -439,6 +439,8 @@ def main():
         # the assumed contracts A9-A11 and of the extraction; it takes about a second once the replay binary is built).
         # Never counted as proved; a reproduced scenario is a violation confirmed on the real code by construction.
         probes_run, bad = vcex.run_all_probes(pid, seed, tier)
+        for pe in vcex.PROBE_ERRORS:
+            print('  note: probe %s could not be run and decides nothing: %s' % (pe['scenario'].get('kind'), pe['output'][:160]))
         for b in bad:
             if b.get('infra'):
                 undecided.append(b['output'])
